@@ -2,7 +2,7 @@
 Helper lemmas for C20: a trace accepted by the Spec has exactly the sequence of (call, clock)
 pairs  (evaluate@0 · [log_initialize@0] · (pselect log mate log evaluate log sselect log)@g, g = 1..ngen)^nrep.
 -/
-import PybropsModel.Lemmas.ProgramEvolve
+import PybropsModel.Lemmas.ProgramCalls
 set_option autoImplicit false
 set_option linter.unusedSectionVars false
 
@@ -24,7 +24,7 @@ def repShape (loginit : Bool) (ngen : Nat) : List (EvKind × Nat) :=
 def traceShape (loginit : Bool) (ngen nrep : Nat) : List (EvKind × Nat) :=
   (List.replicate nrep (repShape loginit ngen)).flatten
 
-def Event.shape (e : Event V) : EvKind × Nat := (e.kind, e.t)
+def Event.shape (e : Event (View V)) : EvKind × Nat := (e.kind, e.t)
 
 theorem gensShape_succ (t n : Nat) :
     gensShape t (n + 1) = genKinds.map (fun k => (k, t)) ++ gensShape (t + 1) n := by
@@ -39,13 +39,13 @@ theorem gensShape_succ (t n : Nat) :
   congr 1
   omega
 
-theorem evOk_shape {V0 : List (Option V)} {k : EvKind} {t : Nat} {e : Event V}
+theorem evOk_shape {V0 : List (Option (View V))} {k : EvKind} {t : Nat} {e : Event (View V)}
     (h : evOk V0 k t e = true) : e.shape = (k, t) := by
   simp only [evOk, Bool.and_eq_true, beq_iff_eq] at h
   simp [Event.shape, h.1.1, h.1.2]
 
-theorem checkGen_shape (R : Item V → Item V → Bool) (V0 : List (Option V)) (t : Nat) (cur : List (Item V))
-    (evs : List (Event V)) (out : List (Item V)) (rest : List (Event V))
+theorem checkGen_shape (R : Item (View V) → Item (View V) → Bool) (V0 : List (Option (View V))) (t : Nat) (cur : List (Item (View V)))
+    (evs : List (Event (View V))) (out : List (Item (View V))) (rest : List (Event (View V)))
     (h : checkGen R V0 t cur evs = some (out, rest)) :
     ∃ pre, evs = pre ++ rest ∧ pre.map Event.shape = genKinds.map (fun k => (k, t)) := by
   unfold checkGen at h
@@ -64,8 +64,8 @@ theorem checkGen_shape (R : Item V → Item V → Bool) (V0 : List (Option V)) (
     · cases h
   · cases h
 
-theorem checkGens_shape (R : Item V → Item V → Bool) (V0 : List (Option V)) (n : Nat) :
-    ∀ (t : Nat) (cur : List (Item V)) (evs rest : List (Event V)),
+theorem checkGens_shape (R : Item (View V) → Item (View V) → Bool) (V0 : List (Option (View V))) (n : Nat) :
+    ∀ (t : Nat) (cur : List (Item (View V))) (evs rest : List (Event (View V))),
       checkGens R V0 n t cur evs = some rest →
       ∃ pre, evs = pre ++ rest ∧ pre.map Event.shape = gensShape t n := by
   induction n with
@@ -83,8 +83,8 @@ theorem checkGens_shape (R : Item V → Item V → Bool) (V0 : List (Option V)) 
       obtain ⟨p2, e2, s2⟩ := ih (t + 1) cur' rest' rest h
       exact ⟨p1 ++ p2, by rw [e1, e2, List.append_assoc], by rw [List.map_append, s1, s2, gensShape_succ]⟩
 
-theorem checkRep_shape (R : Item V → Item V → Bool) (V0 : List (Option V)) (li : Bool) (ngen : Nat)
-    (evs rest : List (Event V)) (h : checkRep R V0 li ngen evs = some rest) :
+theorem checkRep_shape (R : Item (View V) → Item (View V) → Bool) (V0 : List (Option (View V))) (li : Bool) (ngen : Nat)
+    (evs rest : List (Event (View V))) (h : checkRep R V0 li ngen evs = some rest) :
     ∃ pre, evs = pre ++ rest ∧ pre.map Event.shape = repShape li ngen := by
   unfold checkRep at h
   split at h
@@ -112,8 +112,8 @@ theorem checkRep_shape (R : Item V → Item V → Bool) (V0 : List (Option V)) (
     · cases h
   · cases h
 
-theorem checkReps_shape (R : Item V → Item V → Bool) (V0 : List (Option V)) (li : Bool) (ngen : Nat) (n : Nat) :
-    ∀ (evs rest : List (Event V)), checkReps R V0 li ngen n evs = some rest →
+theorem checkReps_shape (R : Item (View V) → Item (View V) → Bool) (V0 : List (Option (View V))) (li : Bool) (ngen : Nat) (n : Nat) :
+    ∀ (evs rest : List (Event (View V))), checkReps R V0 li ngen n evs = some rest →
       ∃ pre, evs = pre ++ rest ∧ pre.map Event.shape = traceShape li ngen n := by
   induction n with
   | zero =>
